@@ -123,6 +123,12 @@ def gen_phases(rng, N, mode):
                 u = rng.choice(units)
                 E.append(u); C.append([u[0], 0]); S.append([u[1], 0])
         return {"mode": mode, "phis": phis, "E": E, "C": C, "S": S, "arbitrary": arbitrary}
+    if rng.random() < 0.3:
+        # every phase an exact multiple of pi, at least one odd multiple: sin(phi) = 0 everywhere but the drive of
+        # those qubits changes sign (a 'skip the complex path when sin vanishes' shortcut is wrong exactly here)
+        phis = [rng.choice([0.0, math.pi, -math.pi, 2 * math.pi, 3 * math.pi]) for _ in range(N)]
+        phis[rng.randrange(N)] = rng.choice([math.pi, -math.pi])
+        return {"mode": mode, "phis": phis}
     phis = [(rng.choice([math.pi / 2, math.pi, 1.5 * math.pi, -math.pi / 2]) if rng.random() < 0.4
              else rng.uniform(-7, 7)) if nz[i] else 0.0 for i in range(N)]
     return {"mode": mode, "phis": phis}
